@@ -242,6 +242,10 @@ func checkC18(p *Program, r *Report) {
 	}
 	if n == 0 {
 		r.Unk("rank at the last position", "", "no rank query at 64*len(words)-1 found (the level walk no longer counts this way)")
+	} else if n < 2 {
+		// two totals are needed: inner nodes (node-type bitmap) and all nodes (label bitmap); a total read
+		// off the index array instead depends on how the stream's index was built (closing entry or not)
+		r.Unk("both totals are counted by a rank query at the last position", "", fmt.Sprintf("only %d of the two totals (inner nodes, all nodes) is obtained by a rank query at 64*len(words)-1 plus its bit", n))
 	}
 }
 
